@@ -70,9 +70,16 @@ def generate(rng, tier):
         h = e_helper()
         while h[0] == "E_Reconnect": h = e_helper()
         cases.append({"h": h, "pre": [e_helper() for _ in range(rng.randint(1, 3))], "family": "after/" + h[0]})
+    # with no port nothing is sent (and nothing raises): one no-port twin for every kind of helper
+    seen = set()
+    for c in list(cases):
+        k = c["h"][0]
+        if k not in seen and k not in ("E_MotorsOnQ", "L_ServoV"):
+            seen.add(k); cases.append({"h": c["h"], "noport": True, "family": "no-port/" + k})
     # the text written must not depend on how promptly the board acknowledges: a third of the cases run against a port whose reads
     # time out 1-3 times (or deliver a blank line) before each acknowledgement
     for c in cases:
+        if c.get("noport"): continue
         r = rng.random()
         if r < 0.25: c["delay"] = rng.choice([1, 1, 2, 3]); c["family"] += "/slow-ack"
         elif r < 0.33 and not c["h"][0].startswith("L_"): c["blank"] = True; c["family"] += "/blank-line-before-ack"
@@ -102,6 +109,8 @@ class AckPort:
 def run_impl(c):
     h = c["h"]; k, a = h[0], h[1:]
     legacy = k.startswith("L_")
+    if c.get("noport"):
+        return _run_noport(k, a, legacy)
     port = AckPort(legacy, c.get("delay", 0), c.get("blank", False), "%d.%d.%d" % tuple(a[:3]) if k == "L_ServoV" else None, "%d,%d" % (a[2], a[3]) if k == "E_MotorsOnQ" else "0,0")
     if legacy:
         M = ebb_motion
@@ -142,6 +151,28 @@ def run_impl(c):
         out.append(t[:-1] if t.endswith("\r") and not t.endswith("\r\r") else t + "<CR?>")
     return {"writes": out}
 
+def _run_noport(k, a, legacy):
+    """the helper with no port: legacy functions get None, the class layer an object that never connected"""
+    if legacy:
+        sent = []
+        class Spy:                      # stands in for "no port" only in the sense that it must never be touched
+            def write(self, d): sent.append(d); return len(d)
+            def readline(self): sent.append(b"<read>"); return b""
+        c2 = {"h": (k,) + tuple(a)}
+        M = ebb_motion
+        args = list(a)
+        calls = {"L_XY": lambda: M.doXYMove(None, *args[:3]), "L_AB": lambda: M.doABMove(None, *args[:3]), "L_LM": lambda: M.doLowLevelMove(None, *args[:7]),
+                 "L_Abs": lambda: M.doAbsMove(None, *args[:3]), "L_Pause": lambda: M.doTimedPause(None, args[0]), "L_MotorsOff": lambda: M.sendDisableMotors(None),
+                 "L_Motors": lambda: M.sendEnableMotors(None, args[0]), "L_Pen": lambda: (M.sendPenUp if args[0] else M.sendPenDown)(None, args[1], args[2]),
+                 "L_BConfig": lambda: M.PBOutConfig(None, args[0], args[1]), "L_BSet": lambda: M.PBOutValue(None, args[0], args[1]), "L_Toggle": lambda: M.TogglePen(None),
+                 "L_PenPos": lambda: (M.setPenUpPos if args[0] else M.setPenDownPos)(None, args[1]), "L_PenRate": lambda: (M.setPenUpRate if args[0] else M.setPenDownRate)(None, args[1]),
+                 "L_LayerVar": lambda: M.setEBBLV(None, args[0]), "L_Servo": lambda: M.servo_timeout(None, args[0], args[1])}
+        calls[k]()
+        return {"writes": [d.decode("latin-1") for d in sent]}
+    o = ebb3_motion.EBBMotionWrap()          # port is None
+    _e_call(o, k, a)
+    return {"writes": []}
+
 def _e_call(o, k, a):
     if True:
         if k == "E_XY": o.xy_move(a[0], a[1], a[2])
@@ -171,6 +202,7 @@ def coq_case(c, r):
         if i in OPT.get(k, []): args.append(copt(x, cz))
         else: args.append(_arg(x))
     hs = "(%s %s)" % (k, " ".join(args)) if args else k
+    if c.get("noport"): hs = "(NoPort %d)" % (sum(map(ord, k)) % 1000)
     impl = "None" if "raise" in r else "(Some %s)" % clist([ctext(w) for w in r["writes"]])
     return "(K06 %s %s %s)" % (cb(FX), hs, impl)
 
